@@ -8,6 +8,7 @@ CONSTANTS
   WithInv = TRUE
   Dyn = FALSE
   WithDC = TRUE
+  WithWinch = TRUE
 VIEW CoarseView
 ACTION_CONSTRAINT DumpL
 CHECK_DEADLOCK FALSE
